@@ -10,7 +10,7 @@ from harness.store_check import OP_CLASS, check_histories, load_corpus
 from harness.store_impl import fresh_dir, gen_history, rm_dir, run_impl, short_sequences
 
 RULE = ('(0) ALL sequences of k ops (quick k=4 over 5 ops, thorough k=5 over 7 ops) after create+add+add; (a) store histories as in C07 restricted to identified stores (distinct ids in random order, negative ids, '
-        'lookups immediately after adds, before any sync, in append sessions, after reopening, in in-memory stores, of ids never '
+        'lookups immediately after adds, before any sync, in append sessions, after reopening, in in-memory stores before and after save, of ids never '
         'added), get_flight outputs compared with the Lean model and the dictionary specification; (b) merges of 1..5 identified '
         'stores of 1..4 trajectories, every id and two absent ids looked up in the merged store (cache 1/64 MB), compared with '
         'mergedGetFlight and the dictionary; non-trivial = the history contains a lookup after an add in the same session or '
@@ -76,9 +76,9 @@ def main(ctx):
     hs += [gen_history(ctx.rng, 22, indexable=True, invalid_rate=0.01, mem_rate=0.2) for _ in range(ctx.scale(quick=90, thorough=3500))]
     # every sequence of k ops over {add, lookup latest, lookup oldest, sync, reopen-append[, lookup absent, reopen-read]}
     if ctx.tier == 'quick':
-        ex = short_sequences('ALOSP', 4, True)
+        ex = short_sequences('ALOSP', 4, True) + short_sequences('ALOVP', 4, True, mem=True)
     else:
-        ex = short_sequences('ALONSPR', 5, True) + short_sequences('ALOS', 5, True, mem=True)
+        ex = short_sequences('ALONSPR', 5, True) + short_sequences('ALOSVP', 5, True, mem=True)
     ctx.extra['exhaustive_short_sequences'] = len(ex)
     hs += ex
     check_histories(ctx, hs, OP_CLASS['C08'], 'get_flight_refines_dict', nontrivial, tag=' (C08)')
